@@ -9,6 +9,10 @@ Tie:    (A) the in-package harness drives the REAL handleReceivedErrorWithMessag
         the dead-letter actor's own Publish calls, its counter (through DeadlettersCountRequest and the raw field),
         the fan-out queue length; the Coq model is evaluated on the same sequences (cases.v + vm_compute) and
         compared row by row.
+        Dimensions: drop cause x message kind (user / AsyncRequest / AsyncResponse / other internal / the three excluded kinds; also a real
+        ctx.Request refused by a full mailbox); forced PID state bits of a registered remote-tell target; failed batches that come out of
+        the REAL coalescer flush path (remoting.RemoteTell to a node that hangs up) — singly inside the model-tied sequences and, in
+        TestVerifC18CoalescerPath, from concurrent senders with natural batching while the drain is not scheduled.
 Oracle: independent of the model: multiset of (message id, sender, receiver) dropped == multiset of Deadletter
         events, each exactly once, counter == number of events after every step, per-receiver counters, and the
         same on a black-box run with real goroutines and concurrent traffic over all causes.
@@ -29,7 +33,19 @@ SIG_ASKRCV = "PID.Ask:timeout-deadletter-names-asker-as-receiver"
 BLK, GAT, ALV, MUT, SA, SB, REM, STP = 1, 2, 3, 4, 5, 6, 7, 8
 GH = [9, 10, 11, 12]
 CL = [13, 14]
+REQ, STY, VD1, VD2 = 15, 16, 17, 18
 CAP_ASSUMED = 256
+# message kinds: the drop site's recursion guard excludes exactly the last three
+KIND_COQ = {"user": "KUser", "asyncreq": "KAsyncRequest", "asyncresp": "KAsyncResponse", "panicking": "KInternal", "poisonpill": "KInternal",
+            "pausepass": "KInternal", "resumepass": "KInternal", "panicsignal": "KInternal",
+            "poststart": "KPostStart", "terminated": "KTerminated", "senddl": "KSendDL"}
+EXCLUDED_KINDS = ("poststart", "terminated", "senddl")
+MAILBOX_KINDS = ["user", "user", "user", "asyncreq", "asyncreq", "asyncresp"]   # kinds that are queued in the user mailbox
+STATE_BITS = ["stopping", "suspended", "passivating", "notrunning", "paused", "skipnext"]
+
+
+def state_running(st):
+    return not any(b in st for b in ("stopping", "suspended", "passivating", "notrunning"))
 
 
 def W(mid, frm=("good", 13), to=("good", 9), payload=True, meta=True):
@@ -38,7 +54,7 @@ def W(mid, frm=("good", 13), to=("good", 9), payload=True, meta=True):
 
 def OP(**k):
     d = dict(K="", Via="", Snd=0, Rcv=0, Kind="user", Mid=0, Dl=True, Guard=True, Shut=False, Qon=True, Accepted=True, Api=False,
-             W=W(0), Tree="", Batch=[])
+             W=W(0), Tree="", St=[], Batch=[])
     d.update(k)
     return d
 
@@ -95,6 +111,33 @@ def witness_ops():
     return ops
 
 
+def kinds_states_ops():
+    """message kinds x drop causes, target PID states for remote tells, failed batches through the real coalescer"""
+    ops = []
+    mid = [0]
+
+    def nm():
+        mid[0] += 1
+        return mid[0]
+    for kind in ("user", "asyncreq", "asyncresp"):
+        for snd in (SA, 0):
+            ops.append(OP(K="local", Via="full", Snd=snd, Mid=nm(), Kind=kind))
+        ops.append(OP(K="local", Via="full", Snd=SB, Mid=nm(), Kind=kind, Shut=True))
+    ops.append(OP(K="local", Via="request", Snd=REQ, Mid=nm(), Kind="asyncreq"))
+    ops.append(OP(K="local", Via="request", Snd=REQ, Mid=nm(), Kind="asyncreq"))
+    for kind in KIND_COQ:
+        ops.append(OP(K="local", Via="direct", Snd=SA, Rcv=ALV, Mid=nm(), Kind=kind))
+        ops.append(OP(K="local", Via="direct", Snd=-1, Rcv=GAT, Mid=nm(), Kind=kind))
+    for st in ([], ["stopping"], ["suspended"], ["passivating"], ["notrunning"], ["paused"], ["paused", "skipnext"], ["stopping", "passivating"],
+               ["suspended", "paused"], ["notrunning", "stopping", "suspended", "passivating"], []):
+        ops.append(OP(K="remote", W=W(nm(), frm=("good", CL[0]), to=("good", STY)), Tree="state", St=st))
+    ops.append(OP(K="count", Rcv=STY))
+    for i in range(7):
+        ops.append(OP(K="coalesce_real", Batch=[W(nm(), frm=("good", [SA, SB, REQ][i % 3]), to=("good", [VD1, VD1, VD2][i % 3]))]))
+    ops += [OP(K="drain"), OP(K="count", Rcv=VD1), OP(K="count", Rcv=GAT), OP(K="count", Rcv=0)]
+    return ops
+
+
 def gen_seq(rng, n_ops, heavy_queue=False):
     ops = []
     mid = [0]
@@ -137,32 +180,38 @@ def gen_seq(rng, n_ops, heavy_queue=False):
         n0 = CAP_ASSUMED - rng.randint(0, 3)
         for _ in range(n0):
             ops.append(OP(K="coalesce", Batch=[W(nm(), frm=("good", rng.choice([SA, SB] + CL)), to=("good", rng.choice(GH)))]))
-    weights = [("unhandled", 10), ("full", 8), ("stopping", 5), ("direct", 6), ("nostream", 1), ("noaddr", 1), ("todl", 3),
-               ("ask", 1.2), ("remote", 20), ("coalesce", 22 if heavy_queue else 10), ("drain", 1 if heavy_queue else 5),
-               ("publishall", 1), ("count", 4)]
+    weights = [("unhandled", 10), ("full", 9), ("request", 2.5), ("stopping", 5), ("direct", 8), ("nostream", 1), ("noaddr", 1), ("todl", 3),
+               ("ask", 1.2), ("remote", 24), ("coalesce", 22 if heavy_queue else 10), ("coalesce_real", 0 if heavy_queue else 4),
+               ("drain", 1 if heavy_queue else 5), ("publishall", 1), ("count", 4)]
     names = [w[0] for w in weights]
     ws = [w[1] for w in weights]
     for _ in range(n_ops):
         k = rng.choices(names, ws)[0]
         if k in ("unhandled", "full"):
-            ops.append(OP(K="local", Via=k, Snd=snd(), Mid=nm(), Shut=rng.random() < 0.05, **env()))
+            kind = rng.choice(MAILBOX_KINDS) if k == "full" else "user"
+            ops.append(OP(K="local", Via=k, Snd=snd(), Mid=nm(), Kind=kind, Shut=rng.random() < 0.05, **env()))
+        elif k == "request":
+            ops.append(OP(K="local", Via="request", Snd=REQ, Mid=nm(), Kind="asyncreq", **env()))
+        elif k == "coalesce_real":
+            ops.append(OP(K="coalesce_real", Batch=[W(nm(), frm=("good", rng.choice([SA, SB, REQ])), to=("good", rng.choice([VD1, VD1, VD2])))]))
         elif k == "stopping":
             ops.append(OP(K="local", Via=k, Snd=snd(), Rcv=rng.choice([ALV, MUT, BLK, SA, GAT]), Mid=nm(), Shut=True, **env()))
         elif k in ("direct", "nostream", "noaddr"):
-            kind = rng.choice(["user", "user", "user", "poststart", "terminated", "senddl"])
-            ops.append(OP(K="local", Via=k, Snd=rng.choice([-1, 0, SA, SB]), Rcv=rng.choice([ALV, MUT, BLK, SA, SB, GAT]), Kind=kind, Mid=nm(), **env()))
+            kind = rng.choice(["user", "user"] + list(KIND_COQ))
+            ops.append(OP(K="local", Via=k, Snd=rng.choice([-1, 0, SA, SB, REQ]), Rcv=rng.choice([ALV, MUT, BLK, SA, SB, GAT, STY]), Kind=kind, Mid=nm(), **env()))
         elif k == "todl":
             ops.append(OP(K="todl", Snd=rng.choice([0, SA, SB, CL[0]]), Rcv=rng.choice([ALV, BLK, GH[0], CL[1], 0]), Mid=nm(), **env()))
         elif k == "ask":
             api = rng.random() < 0.3
             ops.append(OP(K="ask", Snd=0 if api else rng.choice([SA, SB]), Api=api, Accepted=rng.random() < 0.5, Mid=nm(), **env()))
         elif k == "remote":
-            tree = rng.choice(["missing", "missing", "removed", "notrunning", "dispfail", "ok", "ok", "okfull"])
-            to_n = {"missing": rng.choice(GH), "removed": REM, "notrunning": STP, "dispfail": ALV, "ok": ALV, "okfull": GAT}[tree]
+            tree = rng.choice(["missing", "missing", "removed", "notrunning", "dispfail", "ok", "ok", "okfull", "state", "state", "state"])
+            to_n = {"missing": rng.choice(GH), "removed": REM, "notrunning": STP, "dispfail": ALV, "ok": ALV, "okfull": GAT, "state": STY}[tree]
             w = wmsg(to_n, allow_v6=tree in ("missing", "removed", "notrunning"))
             if w["To"]["Form"] == "garbage":
                 tree = "missing"
-            ops.append(OP(K="remote", W=w, Tree=tree, Shut=rng.random() < 0.04, **env()))
+            st = [b for b in STATE_BITS if rng.random() < 0.22] if tree == "state" else []
+            ops.append(OP(K="remote", W=w, Tree=tree, St=st, Shut=rng.random() < 0.04, **env()))
         elif k == "coalesce":
             b = [wmsg(rng.choice(GH + [ALV, REM])) for _ in range(rng.randint(1, 5))]
             ops.append(OP(K="coalesce", Batch=b, Shut=rng.random() < 0.05, Qon=rng.random() >= 0.03))
@@ -171,7 +220,7 @@ def gen_seq(rng, n_ops, heavy_queue=False):
         elif k == "publishall":
             ops.append(OP(K="publishall"))
         else:
-            ops.append(OP(K="count", Rcv=rng.choice([0] + GH + [ALV, GAT, BLK, REM, STP, MUT])))
+            ops.append(OP(K="count", Rcv=rng.choice([0] + GH + [ALV, GAT, BLK, REM, STP, MUT, STY, VD1, VD2])))
     ops += [OP(K="drain"), OP(K="count", Rcv=rng.choice(GH)), OP(K="count", Rcv=0)]
     return ops
 
@@ -218,9 +267,9 @@ def c_hop(o, v6parse, row=None):
     k = o["K"]
     e = c_env(o)
     if k == "local":
-        kind = {"user": "KUser", "poststart": "KPostStart", "terminated": "KTerminated", "senddl": "KSendDL"}[o["Kind"]]
+        kind = KIND_COQ[o["Kind"]]
         via = o["Via"]
-        rcv = {"unhandled": BLK, "full": GAT}.get(via, o["Rcv"])
+        rcv = {"unhandled": BLK, "full": GAT, "request": GAT}.get(via, o["Rcv"])
         stream = via != "nostream"
         rc = "None" if via == "noaddr" else "(Some %d)" % rcv
         return "HOp (OLocal %s %s %s %s %s %d)" % (e, c_bool(stream), c_snd(o["Snd"]), rc, kind, o["Mid"])
@@ -233,10 +282,13 @@ def c_hop(o, v6parse, row=None):
             return "HOp (OAskSend %s)" % args
         return "HAsk " + args
     if k == "remote":
+        st = o.get("St") or []
         t = {"missing": "TMissing", "removed": "TRemoved", "notrunning": "TNotRunning", "dispfail": "TDispFail",
-             "ok": "(TOk %s)" % c_bool(not o["Shut"]), "okfull": "(TOk false)"}[o["Tree"]]
+             "ok": "(TOk %s)" % c_bool(not o["Shut"]), "okfull": "(TOk false)",
+             "state": "(tree_of_state (PS %s %s %s %s) %s)" % (c_bool("notrunning" not in st), c_bool("stopping" in st), c_bool("suspended" in st),
+                                                               c_bool("passivating" in st), c_bool(not o["Shut"]))}[o["Tree"]]
         return "HOp (ORemote %s %s %s)" % (e, c_wmsg(o["W"], v6parse), t)
-    if k == "coalesce":
+    if k in ("coalesce", "coalesce_real"):
         return "HOp (OCoalesce %s [%s])" % (e, "; ".join(c_wmsg(w, v6parse) for w in o["Batch"]))
     if k == "drain":
         return "HDrain %s" % e
@@ -267,21 +319,23 @@ def oracle_sequence(ctx, sid, ops, rows, end, table, stats, report):
     n_fresh = 0
     last_by_rcv = {}
     per_addr_pub = Counter()
-    norm_rows = []
+    exp_target = 0
     for i, (o, r) in enumerate(zip(ops, rows)):
         k = o["K"]
         pubs = [(p["Mid"], p["From"], p["To"]) for p in (r.get("Pub") or [])]
         pub_raw = r.get("Pub") or []
         qlen_before = rows[i - 1]["Qlen"] if i > 0 else 0
-        if r.get("Err"):
+        if r.get("Err") and r["Err"].startswith("env:"):
+            ctx.notes.append("sequence %d step %d inconclusive: %s" % (sid, i, r["Err"]))
+        elif r.get("Err"):
             report("deadletter:harness-op-error", "sequence %d step %d (%s): %s" % (sid, i, k, r["Err"]), {"seq": sid, "step": i, "op": o})
         # ---- what the property demands for this op
         if k == "local":
-            if o["Kind"] == "user":
+            if o["Kind"] not in EXCLUDED_KINDS:
                 via = o["Via"]
-                rcv = {"unhandled": BLK, "full": GAT}.get(via, o["Rcv"])
+                rcv = {"unhandled": BLK, "full": GAT, "request": GAT}.get(via, o["Rcv"])
                 frm = max(o["Snd"], 0)
-                st, why = "must", via
+                st, why = "must", via + ("" if o["Kind"] == "user" else " of a %s message" % o["Kind"])
                 if via in ("nostream", "noaddr"):
                     st, why, rcv = "guard", via, (0 if via == "noaddr" else rcv)
                 elif not o["Dl"]:
@@ -300,11 +354,16 @@ def oracle_sequence(ctx, sid, ops, rows, end, table, stats, report):
                 report("deadletter:harness-op-error", "sequence %d step %d: Ask to the mute actor returned %r instead of timing out" % (sid, i, r.get("AskErr")), {"seq": sid, "step": i})
         elif k == "remote":
             w = o["W"]
-            delivered = w["Payload"] and w["Meta"] and o["Tree"] == "ok" and not o["Shut"]
+            st_bits = o.get("St") or []
+            target_up = o["Tree"] == "ok" or (o["Tree"] == "state" and state_running(st_bits))
+            delivered = w["Payload"] and w["Meta"] and target_up and not o["Shut"]
+            if delivered and o["Tree"] == "state":
+                exp_target += 1
             if not delivered:
-                exps.append(remote_exp(w, i, v6parse, via_parse=(not w["Meta"]) or o["Tree"] not in ("ok", "okfull"),
-                                       dl=o["Dl"], guard=o["Guard"], what="remote/" + ("badmeta" if not w["Meta"] else o["Tree"])))
-        elif k == "coalesce":
+                what = "remote/" + ("badmeta" if not w["Meta"] else (o["Tree"] if o["Tree"] != "state" else "target registered, state bits %s" % (st_bits or ["running"])))
+                exps.append(remote_exp(w, i, v6parse, via_parse=(not w["Meta"]) or not (target_up or o["Tree"] == "okfull"),
+                                       dl=o["Dl"], guard=o["Guard"], what=what))
+        elif k in ("coalesce", "coalesce_real"):
             accepted = r["Qlen"] == qlen_before + 1
             if o["Shut"] or not o["Qon"]:
                 for w in o["Batch"]:
@@ -328,6 +387,16 @@ def oracle_sequence(ctx, sid, ops, rows, end, table, stats, report):
             queue = []
             if r["Qlen"] != 0:
                 report("deadletter:model-mismatch", "fan-out queue not empty after the drain ran to completion", {"seq": sid, "step": i})
+        # ---- nothing may be pushed into the mailbox of a registered target that is not running
+        if r.get("Target", 0) != exp_target:
+            if r.get("Target", 0) > exp_target:
+                report("remote-tell:handed-to-a-target-that-is-not-running",
+                       "sequence %d step %d: remote tell %d to %s arrived while its PID state was %s (IsRunning false): the message was pushed into the actor's mailbox and handled" %
+                       (sid, i, o.get("W", {}).get("Mid", -1), table["Names"][STY], o.get("St")), {"seq": sid, "step": i, "op": o})
+            else:
+                report("deadletter:model-mismatch", "sequence %d step %d: a remote tell to the running target %s was not handled by it" % (sid, i, table["Names"][STY]),
+                       {"seq": sid, "step": i, "op": o})
+            exp_target = r.get("Target", 0)
         # ---- counter and per-receiver counters after every step
         if k == "publishall":
             want = Counter(last_by_rcv.values())
@@ -479,11 +548,15 @@ def run(ctx):
     ]
     rng = ctx.rng
     seqs = []
-    corpus = os.path.join(VERIF, "corpus", "C18", "witness.json")
-    if os.path.exists(corpus):
-        seqs.append(json.load(open(corpus))["ops"])
-    else:
-        seqs.append(witness_ops())
+    cdir = os.path.join(VERIF, "corpus", "C18")
+    for fn, fallback in (("witness.json", witness_ops), ("kinds_states.json", kinds_states_ops)):
+        if os.path.exists(os.path.join(cdir, fn)):
+            ops0 = json.load(open(os.path.join(cdir, fn)))["ops"]
+            for o in ops0:
+                o.setdefault("St", [])
+            seqs.append(ops0)
+        else:
+            seqs.append(fallback())
     n_seq = 600 if ctx.thorough else 80
     for i in range(n_seq):
         seqs.append(gen_seq(rng, rng.randint(25, 70)))
@@ -492,12 +565,12 @@ def run(ctx):
     with open(os.path.join(ctx.work, "c18_in.jsonl"), "w") as f:
         for i, ops in enumerate(seqs):
             f.write(json.dumps({"Id": i, "Ops": ops}) + "\n")
-    for fn in ("c18_out.jsonl", "c18_conc_out.jsonl", "c18_bound_out.jsonl"):
+    for fn in ("c18_out.jsonl", "c18_conc_out.jsonl", "c18_bound_out.jsonl", "c18_coal_out.jsonl"):
         p = os.path.join(ctx.work, fn)
         if os.path.exists(p):
             os.remove(p)
     env = {"VERIF_C18_ROUNDS": "12" if ctx.thorough else "3", "VERIF_C18_PER": "300" if ctx.thorough else "120",
-           "VERIF_C18_BURST": "100000" if ctx.thorough else "20000"}
+           "VERIF_C18_BURST": "100000" if ctx.thorough else "20000", "VERIF_C18_COAL_ROUNDS": "40" if ctx.thorough else "8"}
     ctx.log("running the in-package harness on %d sequences (%d ops)" % (len(seqs), sum(len(s) for s in seqs)))
     rc, out = ctx.go_test("actor", "^TestVerifC18", ["zz_verif_C18_test.go"], env=env, timeout=900)
     ctx.log("harness done rc=%d" % rc)
@@ -527,6 +600,8 @@ def run(ctx):
     stats = {"demanded": 0, "published_once": 0, "lost_finding": Counter(), "excluded_by_code": Counter(), "subscriber_missed": 0}
     ask_fix = {}
     op_hist = Counter()
+    kind_hist = Counter()
+    state_hist = Counter()
     hashes = set()
     if table is not None:
         for sid, ops in enumerate(seqs):
@@ -536,6 +611,10 @@ def run(ctx):
             ask_fix.update(oracle_sequence(ctx, sid, ops, rows, ends[sid], table, stats, report))
             for o in ops:
                 op_hist[o["K"] + ("/" + (o["Via"] or o["Tree"]) if (o["Via"] or o["Tree"]) else "")] += 1
+                if o["K"] == "local":
+                    kind_hist[o["Via"] + ":" + o["Kind"]] += 1
+                if o["K"] == "remote" and o["Tree"] == "state":
+                    state_hist["+".join(o.get("St") or ["running"])] += 1
             if any(r.get("Pub") for r in rows):
                 hashes.add(canon_hash(ops))
 
@@ -568,6 +647,39 @@ def run(ctx):
             stats["subscriber_missed"] += sum((pub - sub).values())
     if rc == 0 and not conc:
         ctx.tie_broken("go-harness TestVerifC18Concurrent produced no output", out)
+    # ---- failed batches produced by the real coalescer flush path while the drain lags: ids, each exactly once
+    coal = [r for r in read_jsonl(os.path.join(ctx.work, "c18_coal_out.jsonl")) if r.get("Coal")]
+    coal_stats = {"rounds": len(coal), "messages": 0, "batches": 0, "largest_batch": 0, "inconclusive": 0}
+    for r in coal:
+        sent = Counter((p["Mid"], p["From"], p["To"]) for p in (r.get("Sent") or []))
+        pub = Counter((p["Mid"], p["From"], p["To"]) for p in (r.get("Pub") or []))
+        coal_stats["messages"] += sum(sent.values())
+        coal_stats["batches"] += r["Batches"]
+        coal_stats["largest_batch"] = max(coal_stats["largest_batch"], r["MaxBatch"])
+        rp = {"test": "TestVerifC18CoalescerPath", "round": r["Round"], "seed": ctx.seed, "failed_batches_queued_before_the_drain": r["Batches"],
+              "sent (id, sender, receiver)": sorted(sent.elements())[:60]}
+        if r.get("Err"):
+            coal_stats["inconclusive"] += 1
+            ctx.notes.append("coalescer path round %d inconclusive: %s" % (r["Round"], r["Err"]))
+            if r["Err"].startswith("env:") and not (pub - sent):
+                continue
+        twice = sorted(m for m in pub if pub[m] > sent[m] and sent[m] > 0)
+        alien = sorted(m for m in pub if sent[m] == 0)
+        never = sorted((sent - pub).elements())
+        if twice or alien:
+            report("deadletter:duplicate" if twice else "deadletter:wrong-fields",
+                   "%d messages sent with remoting.RemoteTell to unreachable nodes by concurrent senders, reported as %d failed batches before the drain ran: "
+                   "dead-lettered twice: %s; never dead-lettered: %s%s (dead-letter count %d = number sent %d)" %
+                   (sum(sent.values()), r["Batches"], [(m, name_of(table, a), name_of(table, b)) for (m, a, b) in twice[:4]],
+                    [(m, name_of(table, a), name_of(table, b)) for (m, a, b) in never[:4]],
+                    ("; published with fields nobody sent: %s" % alien[:3]) if alien else "", r["Count"], sum(sent.values())), rp)
+        elif never:
+            report("deadletter:missing", "%d messages sent with remoting.RemoteTell to unreachable nodes (%d failed batches): never dead-lettered: %s" %
+                   (sum(sent.values()), r["Batches"], [(m, name_of(table, a), name_of(table, b)) for (m, a, b) in never[:4]]), rp)
+        if r["Count"] != sum(pub.values()):
+            report("deadletter:counter-differs-from-number-published", "coalescer path round %d: dead-letter count %d, %d events published" % (r["Round"], r["Count"], sum(pub.values())), rp)
+    if rc == 0 and not coal:
+        ctx.tie_broken("go-harness TestVerifC18CoalescerPath produced no output", out)
     bound = [r for r in read_jsonl(os.path.join(ctx.work, "c18_bound_out.jsonl")) if r.get("Bound")]
     for r in bound:
         if r["Dup"] > 0 or r["Count"] != r["Published"]:
@@ -691,14 +803,15 @@ Eval vm_compute in summary.
             if i < len(steps[0]):
                 sample_rows.append({"op": {k: v for k, v in seqs[0][i].items() if k in ("K", "Via", "Snd", "Rcv", "Mid", "Tree", "Accepted")}, "implementation": steps[0][i]})
     ctx.coverage.update({
-        "evaluations": n_rows + conc_msgs + sum(r["Sent"] for r in bound),
+        "evaluations": n_rows + conc_msgs + sum(r["Sent"] for r in bound) + coal_stats["messages"],
         "distinct_nontrivial": len(hashes),
         "rule": "op sequences (25-70 ops, two starting with ~capacity queued batches, plus the witness corpus) mixing every drop cause, "
                 "environment flags, address forms (canonical / IPv6 host / empty / garbage), undecodable payloads, bad metadata, drains, "
                 "PublishDeadletters and count queries; non-trivial = at least one dead letter published; distinct by hash of the op list",
         "samples": sample_rows,
         "sequences": len(seqs), "steps_compared_with_model": n_rows, "model_mismatching_sequences": mism,
-        "op_histogram": dict(op_hist),
+        "op_histogram": dict(op_hist), "drop_cause_x_message_kind": dict(kind_hist), "remote_tell_target_states": dict(state_hist),
+        "coalescer_path_rounds": coal_stats,
         "demanded_dead_letters": stats["demanded"], "published_exactly_once": stats["published_once"],
         "excluded_by_code_branches": dict(stats["excluded_by_code"]), "lost_in_finding_classes": dict(stats["lost_finding"]),
         "concurrent_rounds": len(conc), "concurrent_dropped_messages": conc_msgs,
@@ -710,7 +823,8 @@ Eval vm_compute in summary.
         "theorems": ["C18_counter_matches_published", "C18_counter_is_number_published", "C18_counter_changes_only_when_publishing",
                      "C18_per_receiver_counter", "C18_accounting", "C18_partial", "C18_exactly_once_partial", "C18_quiescence_reachable",
                      "C18_exactly_once_refuted_queue_full", "C18_exactly_once_refuted_unparseable_receiver",
-                     "C18_sender_refuted_unparseable_sender", "C18_once_refuted_ask_enqueue_failure"],
+                     "C18_sender_refuted_unparseable_sender", "C18_once_refuted_ask_enqueue_failure",
+                     "C18_every_non_excluded_kind_is_dead_lettered", "C18_remote_tell_target_state"],
     })
 
 
@@ -725,7 +839,11 @@ META = {
             "at quiescence, which is always reachable. Witnesses refute the unguarded statement (full fan-out queue, unparseable receiver/sender, "
             "Ask with failed enqueue) and are replayed on the real code. The real drop sites, deliverRemoteTellMessage, the coalesced-failure "
             "queue and the dead-letter actor are driven in-package on generated sequences and compared with the model after every op; a "
-            "black-box concurrent run checks exactly-once with unique message ids.",
+            "black-box concurrent run checks exactly-once with unique message ids. Generator dimensions: drop cause x message kind (user, "
+            "AsyncRequest/AsyncResponse envelopes incl. a real ctx.Request, other internal messages, the three excluded ones), PID state bits of a "
+            "registered remote-tell target (stopping/suspended/passivating/running bit/irrelevant bits; nothing may reach its mailbox), and "
+            "consecutive failed batches produced by the real coalescer flush path (remoting.RemoteTell to nodes that hang up) before the drain runs, "
+            "judged on the multiset of message ids.",
     "design_ref": "DESIGN.md 7/C18",
     "level_note": "Trusted: Coq kernel, hand-written model (conformance-checked each run), Go runtime channel/mailbox FIFO. Atomicity of the mailbox enqueue is C02/C03's subject.",
 }
